@@ -186,6 +186,11 @@ func (p *Parser) CreateBuilder() *builder.FunctionBuilder {
 // GenerateBaseCode returns the resulting code as a string, or an error if the generation process fails.
 func (p *Parser) GenerateBaseCode() (code string, err error) {
 	util.RemoveMatchComments(p.file, reGoBuildGen)
+	if p.file.Doc != nil && len(p.file.Doc.List) == 0 {
+		// The package doc consisted of such lines only. An empty group has no position
+		// and must not stay linked from the file node.
+		p.file.Doc = nil
+	}
 
 	// Remove doc comment of the interface.
 	// And also find the range pos of the interface in the code.
